@@ -2,6 +2,7 @@
 #include "sim.h"
 #include <algorithm>
 
+int g_caller_misalign = 0;
 uint64_t fnv1a(const void *p, size_t n, uint64_t h) {
     const unsigned char *b = (const unsigned char *)p;
     for (size_t i = 0; i < n; i++) { h ^= b[i]; h *= 1099511628211ULL; }
